@@ -144,11 +144,21 @@ def run(ctx):
                           "`true`: %s" % (kmax, sorted(cnd.lit_str(l) for l in tl)), where=q.loc())
         # FM-5
         pv = df.Prov(q)
+        # semantic form: some `return false` is decided by a comparison of wrapping_sub(new id, last id) - found in the
+        # path literals (helpers are transparent / expanded), not by looking for a call in this very function
         ws = []
-        for bi, t, cal in mir.iter_calls(q, name="wrapping_sub"):
-            fa = [df.canon(pv.op_tree(a), q) for a in t["args"]]
-            if all(x.endswith("sequence_id") for x in fa):
-                ws.append(t)
+        cq = cnd.conds(prog, q)
+        rej = set()
+        for (bi_, si_, d_) in cq.d.whole.get(0, []):
+            if d_[0] == "assign" and d_[1]["k"] == "use" and mir.op_const(d_[1]["op"]) is False:
+                rej |= set(cnd.expand_literals(prog, q, cq.must_literals(bi_)))
+        for l in rej:
+            if l[0] == "cmp" and l[1] in ("lt", "le", "gt", "ge"):
+                for side in (l[2], l[3]):
+                    x = df.strip(side)
+                    if x[0] == "call" and x[2] == "wrapping_sub" and len(x[3]) == 2 and \
+                            any(df.canon(a, q).endswith("sequence_id") for a in x[3]):
+                        ws.append(l)
         raw = []
         for bi, t in mir.iter_terms(q, "assert"):
             m = t["msg"]
@@ -158,7 +168,7 @@ def run(ctx):
                     raw.append(t["sp"][1])
         if ws and not raw:
             lits_false = cnd.returns_literals(prog, q, True)
-            rep.ok("FM-5", q.key, "wrapping_sub(sequence ids)", where=fc.where(q, ws[0]["sp"][1]))
+            rep.ok("FM-5", q.key, "wrapping_sub(sequence ids)", detail=cnd.lit_canon(ws[0], q), where=q.loc())
         else:
             rep.violation("FM-5", q.key, "wrapping_sub(sequence ids)",
                           "sequence-id freshness is not computed with wrapping arithmetic (wrapping_sub sites: %d, "
